@@ -34,7 +34,7 @@ PROPS = {
 }
 
 
-def build_evidence(prop, pd, tier, seed, wall, functions, n_obl, n_dis, obl_samples, per_solver, solver_time, trusted, rt, violations, undecided, known_hit, crashed):
+def build_evidence(prop, pd, tier, seed, wall, functions, n_obl, n_dis, obl_samples, per_solver, solver_time, trusted, rt, violations, undecided, known_hit, crashed, canaries=()):
     level = pd["level"]
     cov = {
         "obligations": n_obl,
@@ -45,6 +45,7 @@ def build_evidence(prop, pd, tier, seed, wall, functions, n_obl, n_dis, obl_samp
         "obligations_by_backend": per_solver,
         "solver_time_s": round(solver_time, 3),
         "undecided": undecided,
+        "vacuity_canaries": {"checked": len(canaries), "reachable": sum(1 for c in canaries if c["status"] == "reachable"), "unknown": sum(1 for c in canaries if c["status"] == "reachable?"), "vacuous": sum(1 for c in canaries if c["status"] == "vacuous")},
         "known_findings_matched": [k.get("id") for k, _ in known_hit],
         "tool_failures": [str(c["unit"]) for c in crashed],
         "samples": list(obl_samples),
